@@ -79,3 +79,14 @@ impl LuaIndex for LuaFlowIndex {
         self.signature_cast_cache.clear();
     }
 }
+
+#[cfg(emmyluals_emmylua_analyzer_rust_verif)]
+impl LuaFlowIndex {
+    /// Verification hook: entry counts of every container of this index.
+    pub fn verif_sizes(&self) -> Vec<(&'static str, usize)> {
+        vec![
+            ("file_flow_tree", self.file_flow_tree.len()),
+            ("signature_cast_cache", self.signature_cast_cache.len()),
+        ]
+    }
+}
